@@ -190,6 +190,8 @@ M('C06', 'reshaper-pad-rounds-down', RS, "        s = (s + options.block_size - 
 M('C06', 'reshaper-pad-front', RS, "        (0, p - m) for p, m in zip(shapes.padded_shape, shapes.merged_shape)", "        (p - m, 0) for p, m in zip(shapes.padded_shape, shapes.merged_shape)")
 M('C06', 'reshaper-unmerge-slice-padded', RS, "      merged = update[tuple(slice(0, m) for m in shapes.merged_shape)]", "      merged = update[tuple(slice(0, m) for m in shapes.padded_shape)]")
 M('C06', 'init-no-indivisible-check', TS, "        dim % options.block_size != 0\n        for dim in param.shape\n        if dim >= options.block_size", "        dim % options.block_size != 0\n        for dim in param.shape\n        if dim >= options.block_size and False")
+M('C06', 'partition-guard-le', DS, "      if 0 < block_size < d:\n        # d-1, otherwise split appends a 0-size array.", "      if 0 < block_size <= d:\n        # d-1, otherwise split appends a 0-size array.")
+TW('C06', 'twin-partition-guard-respelled', DS, "      if 0 < block_size < d:\n        # d-1, otherwise split appends a 0-size array.", "      if not (block_size <= 0 or d <= block_size):\n        # d-1, otherwise split appends a 0-size array.")
 TW('C06', 'twin-merge-reversed-list', DS, "    for (i, indices) in reversed(self._splits):", "    for (i, indices) in reversed(list(self._splits)):")
 TW('C06', 'twin-large-lt-negated', TS, "  dims = [min(dim, options.block_size) for dim in param_shape]", "  dims = [dim if dim < options.block_size else options.block_size for dim in param_shape]")
 
